@@ -285,3 +285,64 @@ Definition api_entry (a : api) (closed has_remote : bool) : entry :=
 
 Definition entry_is_invalid_state (e : entry) : bool :=
   match e with Proceeds => false | _ => true end.
+
+(* ---- the entry protocol: who closes which done-channel ----
+   close() decides from the two locals of its entry block:
+     if !isAlreadyClosingOrClosed                      { defer close(pc.isCloseDone) }
+     if shouldGracefullyClose && (!isAlreadyClosingOrClosed || !isAlreadyGracefullyClosingOrClosed)
+                                                       { defer close(pc.isGracefulCloseDone) }
+   (the second condition is what is left of the early returns: a graceful
+   caller that is already-closing AND already-graceful waits and returns).
+   A thread counts from the moment it has left the entry block. *)
+Definition closes_closeDone (t : thread) : bool :=
+  match t with
+  | Closer _ CStart _ _ => false
+  | Closer _ _ ac _ => negb ac
+  | Updater _ _ _ => false
+  end.
+Definition closes_gracefulDone (t : thread) : bool :=
+  match t with
+  | Closer _ CStart _ _ => false
+  | Closer g _ ac ag => g && (negb ac || negb ag)
+  | Updater _ _ _ => false
+  end.
+(* the caller is in or past the teardown block (steps #3-#10) *)
+Definition in_teardown (t : thread) : bool :=
+  match t with
+  | Closer _ CTorndown _ _ | Closer _ (CComputed _) _ _ => true
+  | _ => false
+  end.
+
+(* ---- the entry block split in two: NOT the code, a variant kept to state
+   that the block has to be atomic.  A close() that performs
+   isClosed.Swap(true) before pc.mu.Lock():
+     block 1   ac := isClosed.Swap(true)                                [no lock]
+     block 2   [pc.mu.Lock; ag := isGracefullyClosingOrClosed;
+                if g && !ag { isGracefullyClosingOrClosed = true }; Unlock]
+   Every other block is that of [step].  [pre] holds, per thread, the result of
+   block 1 while the thread is between the two blocks. *)
+Definition set_isClosed (s : state) : state :=
+  mkState (threads s) true (gflag s) (closeDone s) (gracefulDone s) (ucsLock s) (sigClosed s)
+          (iceState s) (dtlsState s) (connState s) (connLog s) (teardowns s) (gracefulOps s)
+          (panicked s).
+Definition set_gflag (s : state) (g : bool) : state :=
+  mkState (threads s) (isClosed s) (if g && negb (gflag s) then true else gflag s)
+          (closeDone s) (gracefulDone s) (ucsLock s) (sigClosed s) (iceState s) (dtlsState s)
+          (connState s) (connLog s) (teardowns s) (gracefulOps s) (panicked s).
+
+Definition step_split (sp : state * list (option bool)) (tid : nat)
+  : option (state * list (option bool)) :=
+  let (s, pre) := sp in
+  match nth_error (threads s) tid with
+  | Some (Closer g CStart _ _) =>
+      match nth_error pre tid with
+      | Some None => Some (set_isClosed s, upd pre tid (Some (isClosed s)))
+      | Some (Some ac) =>
+          Some (set_thread (set_gflag s g) tid (Closer g CSwapped ac (gflag s)), pre)
+      | None => None
+      end
+  | _ => match step s tid with Some s' => Some (s', pre) | None => None end
+  end.
+Definition run_split (s0 : state) (sched : list nat) : state * list (option bool) :=
+  fold_left (fun sp tid => match step_split sp tid with Some x => x | None => sp end)
+            sched (s0, map (fun _ => None) (threads s0)).
